@@ -22,7 +22,17 @@ def run_on(patch, prop, budget="12"):
         shutil.rmtree(wt, ignore_errors=True)
 
 what = sys.argv[1] if len(sys.argv) > 1 else "own"
-if what == "own":
+if what == "ids":
+    # re-run the target property's quick check for the given seeded ids (budget: env BUDGET, default 15)
+    for sid in sys.argv[2:]:
+        d = "/verif/seeded/" + sid
+        m = json.load(open(d + "/meta.json"))
+        r = run_on(d + "/patch.diff", m["property"], os.environ.get("BUDGET", "15"))
+        m.setdefault("checks", {})[m["property"]] = {"exit": r["exit"], "wall_s": r["wall_s"], "lines": r["lines"], "summary": ""}
+        m.setdefault("ran", []).append("re-run: bin/simcheck run --property %s --tier quick (VERIF_BUDGET_S=%s): exit %d" % (m["property"], os.environ.get("BUDGET", "15"), r["exit"]))
+        json.dump(m, open(d + "/meta.json", "w"), indent=1)
+        print(sid, m["property"], r["baseline"], "exit", r["exit"], [l.split()[1] for l in r["lines"] if l.startswith("violation")])
+elif what == "own":
     for d in sorted(glob.glob("/verif/seeded/own-*")):
         m = json.load(open(d + "/meta.json"))
         r = run_on(d + "/patch.diff", m["property"])
